@@ -27,6 +27,19 @@ impl<const BITS: usize, const LIMBS: usize> Uint<BITS, LIMBS> {
         requires (v as nat) < pow2(BITS as nat)
         ensures r.wf(), r.val() == v
     { unimplemented!() }
+    // ASSUMED (label A): `x.try_into().unwrap()` to u64 / u128 (TryFrom<Uint> for the primitive types: to_int! macro, C07, Kani per width):
+    // panics unless the value fits, else yields it. The target type is the callee's parameter type (declared rewrites below).
+    #[verifier::external_body]
+    pub fn unwrap_u64(self) -> (r: u64)
+        requires self.wf(), self.val() < 0x1_0000_0000_0000_0000
+        ensures r == self.val()
+    { unimplemented!() }
+    #[verifier::external_body]
+    pub fn unwrap_u128(self) -> (r: u128)
+        requires self.wf(), self.val() < 0x1_0000_0000_0000_0000 * 0x1_0000_0000_0000_0000
+        ensures r == self.val()
+    { unimplemented!() }
+//@ import bitlen bit_len
 }
 
 //@ extract src/algorithms/gcd/matrix.rs struct Matrix
@@ -240,6 +253,65 @@ impl Matrix {
         };
         *a = c;
         *b = d;
+    }
+//@ end
+//@ import jebelean from_u128_prefix
+
+//@ extract src/algorithms/gcd/matrix.rs fn from ctx="impl Matrix" rewrite="Self :: from_u64 ( a . try_into ( ) . unwrap ( ) , b . try_into ( ) . unwrap ( ) )" => "Self::from_u64(a.unwrap_u64(), b.unwrap_u64())" #1 rewrite="Self :: from_u128_prefix ( a . try_into ( ) . unwrap ( ) , b . try_into ( ) . unwrap ( ) )" => "Self::from_u128_prefix(a.unwrap_u128(), b.unwrap_u128())" #2
+    pub fn from<const BITS: usize, const LIMBS: usize>(
+        a: Uint<BITS, LIMBS>,
+        b: Uint<BITS, LIMBS>,
+    ) -> /*+*/(m:/*-*/ Self/*+*/)
+        requires a.wf(), b.wf(), a.val() >= b.val()
+        ensures !is_identity(m) ==> lehmer_ok(m, a.val() as int, b.val() as int)/*-*/
+    {
+        vassert (a >= b );
+        let s = a.bit_len();
+        /*+*/let ghost av = a.val() as int; let ghost bv = b.val() as int;
+        proof {
+            lemma2_to64(); lemma_pow2_64();
+            lemma_pow2_adds(64, 64);
+            if s <= 64 && av != 0 { if s < 64 { lemma_pow2_strictly_increases(s as nat, 64); } }
+            if s <= 128 && av != 0 { if s < 128 { lemma_pow2_strictly_increases(s as nat, 128); } }
+            if s > 64 { lemma_pow2_strictly_increases(63, (s - 1) as nat); if s > 65 { } }
+        }/*-*/
+        if s <= 64 {
+            Self::from_u64(a.unwrap_u64(), b.unwrap_u64())
+        } else if s <= 128 {
+            /*+*/proof {
+                assert(av >= 0x1_0000_0000_0000_0000) by { if s > 65 { lemma_pow2_strictly_increases(64, (s - 1) as nat); } };
+                assert(pow2(0) == 1);
+                assert(is_prefix(av, bv, av, bv, 0));
+            }/*-*/
+            Self::from_u128_prefix(a.unwrap_u128(), b.unwrap_u128())
+        } else {
+            /*+*/let ghost k = (s - 128) as nat;
+            proof {
+                // floor(a / 2^(s-128)) has exactly 128 bits: 2^127 <= . < 2^128
+                lemma_pow2_pos(k);
+                lemma_pow2_adds(k, 128); lemma_pow2_adds(k, 127);
+                let pk = pow2(k) as int;
+                assert(k + 127 == s - 1 && k + 128 == s);
+                lemma_mul_is_commutative(pow2(127) as int, pk);
+                lemma_mul_is_commutative(pow2(128) as int, pk);
+                assert(pow2(127) as int * pk == pow2((s - 1) as nat) as int);
+                assert(pow2(128) as int * pk == pow2(s as nat) as int);
+                assert(pow2(127) as int * pk <= av && av < pow2(128) as int * pk);
+                lemma_div_is_ordered(pow2(127) as int * pk, av, pk);
+                lemma_div_multiples_vanish(pow2(127) as int, pk);
+                lemma_mul_is_commutative(pow2(127) as int, pk);
+                lemma_mul_is_commutative(pow2(128) as int, pk);
+                lemma_div_by_multiple_is_strongly_ordered(av, pow2(128) as int * pk, pow2(128) as int, pk);
+                lemma_div_multiples_vanish(pow2(128) as int, pk);
+                lemma_div_is_ordered(bv, av, pk);
+                lemma_pow2_strictly_increases(64, 127);
+                lemma_div_pos_is_pos(bv, pk);
+            }/*-*/
+            let a = a >> (s - 128);
+            let b = b >> (s - 128);
+            /*+*/proof { assert(is_prefix(a.val() as int, b.val() as int, av, bv, k)); }/*-*/
+            Self::from_u128_prefix(a.unwrap_u128(), b.unwrap_u128())
+        }
     }
 //@ end
 }
